@@ -196,7 +196,7 @@ def ctrl(ctx):
                         relevance_factor=T.sym("relevance"), mean_var_update_threshold=m.fields["mean_var_update_threshold"])
     cl = K.check_function(I, "gmm.map_gmm_m_step", build, wrong, map_facts(I), "ctl")
     bad = [c for c in cl if c.status == "refuted"]
-    return [Clause("C05.control.means-prior-only", "refuted" if bad else "discharged", "npsym", "spec 'means stay at the prior' must be refuted")]
+    return [Clause("C05.control.means-prior-only", "refuted" if bad else ("discharged" if cl and all(c.status == "discharged" for c in cl) else "undecided"), "npsym", "spec 'means stay at the prior' must be refuted")]
 
 
 GROUPS = [guard(mstep_map), guard(limits), guard(sum_to_one), guard(init_copy), guard(loop_map)]
